@@ -3,13 +3,14 @@ import RustCcModel.Proofs.CountsSimp2
 /-! Automation for steps that move no pointer (`noptr`), and the stash blocks. -/
 namespace RustCc
 open World
+variable {ex : Bool}
 
 /-- A step that moves no pointer, changes no count and allocates nothing. -/
-theorem CountsH.noptr {w w' : World} {E : List Id} (h : CountsH w E) (hH : w'.H = w.H) (hs : w'.stash = w.stash)
+theorem CountsH.noptr {w w' : World} {E : List Id} (h : CountsH ex w E) (hH : w'.H = w.H) (hs : w'.stash = w.stash)
     (hst : w'.stack = w.stack) (hn : w'.next = w.next)
     (hf : ∀ u, fieldsOf (w'.heap u) = fieldsOf (w.heap u)) (hrc : ∀ u, (w'.heap u).rc = (w.heap u).rc)
     (hpc : ∀ x ∈ w'.pc, x ∈ w.pc)
-    (hm : ∀ x, (w'.metas x).accessible = true → (w.metas x).accessible = true) : CountsH w' E :=
+    (hm : ∀ x, (w'.metas x).accessible = true → (w.metas x).accessible = true) : CountsH ex w' E :=
   h.same (fun x => refs_congr w w' x hH hs (by rw [hst]) hn (fun u _ => hf u)) hrc hn
     (fun f hf => by rw [← hst]; exact hf) (fun x hx => Or.inl (hpc x hx)) (acc_of_mono h hm)
 
@@ -77,7 +78,7 @@ macro "acc_tac" : tactic => `(tactic| (
     | (simp only [s_emit_metas, s_push_metas, s_setH_metas, s_setW_metas, s_setK_metas, s_upd_metas, s_raise_metas, s_raiseLogged_metas, s_startCollect_metas, removeFromList_metas', addToList_metas', cloneOk_metas] at hx))))
 
 macro "noptr" h:ident : tactic => `(tactic| (
-  refine CountsH.toCounts (CountsH.noptr $h ?_ ?_ ?_ ?_ ?_ ?_ ?_ ?_)
+  refine CountsH.toCounts0 (CountsH.noptr $h ?_ ?_ ?_ ?_ ?_ ?_ ?_ ?_)
   all_goals first
     | rfl
     | (simp; done)
@@ -91,9 +92,9 @@ macro "noptr" h:ident : tactic => `(tactic| (
 theorem count_replicate_self (n : Nat) (x y : Id) : (List.replicate n x).count y = if x = y then n else 0 := by
   rw [List.count_replicate]; by_cases h : x = y <;> simp [h]
 
-theorem CountsH.incrRc {w : World} {E : List Id} (h : CountsH w E) (y : Id) (n : Nat) (hy : y < w.next) :
-    CountsH (w.upd y fun o => { o with rc := o.rc + n }) (List.replicate n y ++ E) := by
-  refine ⟨?_, ?_, h.frames, h.pcb, h.mfresh⟩
+theorem CountsH.incrRc {w : World} {E : List Id} (h : CountsH ex w E) (y : Id) (n : Nat) (hy : y < w.next) :
+    CountsH ex (w.upd y fun o => { o with rc := o.rc + n }) (List.replicate n y ++ E) := by
+  refine ⟨?_, ?_, ?_, h.frames, h.pcb, h.mfresh⟩
   · intro x
     rw [refs_upd_same w y _ x rfl, List.count_append, count_replicate_self]
     by_cases hxy : y = x
@@ -102,6 +103,15 @@ theorem CountsH.incrRc {w : World} {E : List Id} (h : CountsH w E) (y : Id) (n :
       simp; omega
     · have hxy' : ¬ x = y := fun e => hxy e.symm
       have := h.le x
+      simp [upd, Heap.set, hxy', hxy]; omega
+  · intro hex x
+    rw [refs_upd_same w y _ x rfl, List.count_append, count_replicate_self]
+    by_cases hxy : y = x
+    · subst hxy
+      have := h.ge hex y
+      simp; omega
+    · have hxy' : ¬ x = y := fun e => hxy e.symm
+      have := h.ge hex x
       simp [upd, Heap.set, hxy', hxy]; omega
   · intro x hx
     have hx' : w.next ≤ x := hx
@@ -117,14 +127,23 @@ theorem refs_stash (w : World) (g : Id → Nat) (x : Id) : refs { w with stash :
   show (optIds w.H).count x + g x + (held w.stack).count x + fieldRefs w x + w.stash x = _
   omega
 
-theorem CountsH.toStash {w : World} {E : List Id} {y : Id} {n : Nat} (h : CountsH w (List.replicate n y ++ E)) :
-    CountsH { w with stash := fun z => if z = y then w.stash y + n else w.stash z } E := by
-  refine ⟨?_, ?_, h.frames, h.pcb, h.mfresh⟩
+theorem CountsH.toStash {w : World} {E : List Id} {y : Id} {n : Nat} (h : CountsH ex w (List.replicate n y ++ E)) :
+    CountsH ex { w with stash := fun z => if z = y then w.stash y + n else w.stash z } E := by
+  refine ⟨?_, ?_, ?_, h.frames, h.pcb, h.mfresh⟩
   · intro x
     have h1 := h.le x
     have h2 := refs_stash w (fun z => if z = y then w.stash y + n else w.stash z) x
     rw [List.count_append, count_replicate_self] at h1
     show refs _ x + E.count x ≤ (w.heap x).rc
+    by_cases hxy : y = x
+    · subst hxy; simp at h1 h2; omega
+    · have hxy' : ¬ x = y := fun e => hxy e.symm
+      simp [hxy, hxy'] at h1 h2; omega
+  · intro hex x
+    have h1 := h.ge hex x
+    have h2 := refs_stash w (fun z => if z = y then w.stash y + n else w.stash z) x
+    rw [List.count_append, count_replicate_self] at h1
+    show (w.heap x).rc ≤ refs _ x + E.count x
     by_cases hxy : y = x
     · subst hxy; simp at h1 h2; omega
     · have hxy' : ¬ x = y := fun e => hxy e.symm
@@ -139,14 +158,23 @@ theorem CountsH.toStash {w : World} {E : List Id} {y : Id} {n : Nat} (h : Counts
     · have hxy' : ¬ x = y := fun e => hxy e.symm
       simp [hxy, hxy'] at h1 h2; omega
 
-theorem CountsH.fromStash {w : World} {E : List Id} (h : CountsH w E) (y : Id) (k : Nat) (hk : k ≤ w.stash y) :
-    CountsH { w with stash := fun z => if z = y then w.stash y - k else w.stash z } (List.replicate k y ++ E) := by
-  refine ⟨?_, ?_, h.frames, h.pcb, h.mfresh⟩
+theorem CountsH.fromStash {w : World} {E : List Id} (h : CountsH ex w E) (y : Id) (k : Nat) (hk : k ≤ w.stash y) :
+    CountsH ex { w with stash := fun z => if z = y then w.stash y - k else w.stash z } (List.replicate k y ++ E) := by
+  refine ⟨?_, ?_, ?_, h.frames, h.pcb, h.mfresh⟩
   · intro x
     have h1 := h.le x
     have h2 := refs_stash w (fun z => if z = y then w.stash y - k else w.stash z) x
     rw [List.count_append, count_replicate_self]
     show refs _ x + _ ≤ (w.heap x).rc
+    by_cases hxy : y = x
+    · subst hxy; simp at h2 ⊢; omega
+    · have hxy' : ¬ x = y := fun e => hxy e.symm
+      simp [hxy, hxy'] at h2 ⊢; omega
+  · intro hex x
+    have h1 := h.ge hex x
+    have h2 := refs_stash w (fun z => if z = y then w.stash y - k else w.stash z) x
+    rw [List.count_append, count_replicate_self]
+    show (w.heap x).rc ≤ refs _ x + _
     by_cases hxy : y = x
     · subst hxy; simp at h2 ⊢; omega
     · have hxy' : ¬ x = y := fun e => hxy e.symm
